@@ -136,6 +136,10 @@ var Mutants = []Mutant{
 	{ID: "scope-update-stops-at-first-scope", Props: []string{"C10", "C09"}, Rule: "R-SCOPECHAIN", File: "pkg/evaluator/scope.go", Find: "\tif s.outer == nil {\n\t\treturn false\n\t}\n\treturn s.outer.update(name, val)", Replace: "\tif s.outer == nil {\n\t\treturn false\n\t}\n\tif s.outer.outer == nil {\n\t\ts.outer.values[name] = val\n\t\treturn true\n\t}\n\treturn s.outer.update(name, val)", Expect: "(*scope).update#", Describe: "an assignment that reaches the global scope creates the variable there instead of failing"},
 	{ID: "assignment-binds-locally", Props: []string{"C10", "C09"}, Rule: "R-SCOPECHAIN", File: "pkg/evaluator/evaluator.go", Find: "\t\tif !e.scope.update(n.Name, val) {\n\t\t\treturn newErr(n, fmt.Errorf(\"%w: %s\", ErrVarNotSet, n.Name))\n\t\t}\n\t\treturn nil", Replace: "\t\tif _, ok := e.scope.get(n.Name); !ok {\n\t\t\treturn newErr(n, fmt.Errorf(\"%w: %s\", ErrVarNotSet, n.Name))\n\t\t}\n\t\te.scope.set(n.Name, val)\n\t\treturn nil", Expect: "evalAssignment#binds-through:update", Describe: "an assignment inside a block creates a new variable in the block"},
 	{ID: "loopvar-zeroed-before-operands", Props: []string{"C02", "C10"}, Rule: "R-LOOPVARINIT", File: "pkg/evaluator/evaluator.go", Find: "\tr, err := e.newRange(f)\n\tif err != nil {\n\t\treturn nil, err\n\t}\n\tloopVarName := \"_\"\n\tif f.LoopVar != nil {\n\t\tloopVarName = f.LoopVar.Name\n\t}", Replace: "\tloopVarName := \"_\"\n\tif f.LoopVar != nil {\n\t\tloopVarName = f.LoopVar.Name\n\t\te.scope.set(loopVarName, zero(f.LoopVar.Type()))\n\t}\n\tr, err := e.newRange(f)\n\tif err != nil {\n\t\treturn nil, err\n\t}", Expect: "evalFor#loopvar-created-after-operands", Describe: "`for x := range x` ranges over the loop variable's zero value"},
+	{ID: "svg-clear-default-moved-out", Props: []string{"C19"}, Rule: "R-SVG", File: "pkg/cli/svg/runtime.go", Find: "\tif color == \"\" {\n\t\tcolor = \"white\"\n\t}\n\trect := Rect{", Replace: "\trect := Rect{", Expect: "svg.Clear#own-colour", Describe: "`clear \"\"` paints the canvas black"},
+	{ID: "svg-styled-test-ignores-dash", Props: []string{"C19"}, Rule: "R-SVG", File: "pkg/cli/svg/runtime.go", Find: "\tif rt.attr != defaultAttr {\n\t\tel.(attrSetter).setAttr(rt.nonDefaultAttr())\n\t}", Replace: "\tif rt.attr.Fill != defaultAttr.Fill || rt.attr.Stroke != defaultAttr.Stroke || rt.attr.StrokeWidth != defaultAttr.StrokeWidth || rt.attr.StrokeLinecap != defaultAttr.StrokeLinecap {\n\t\tel.(attrSetter).setAttr(rt.nonDefaultAttr())\n\t}", Expect: "svg.Push#styled-test-covers-the-pen", Describe: "a pen that is only dashed draws solid lines"},
+	{ID: "svg-file-not-truncated", Props: []string{"C19"}, Rule: "R-OUTFILE", File: "main.go", Find: "\t\tf, err := os.Create(c.SVGOut)\n", Replace: "\t\tf, err := os.OpenFile(c.SVGOut, os.O_WRONLY|os.O_CREATE, 0o644)\n", Expect: "writeSVG#output-file", Describe: "a smaller drawing written over a larger one keeps the old tail"},
+	{ID: "envelope-without-payload", Props: []string{"C20"}, Rule: "R-CRYPTO", File: "learn/pkg/learn/encrypt.go", Find: "\taesCiphertext := ciphertext[rsaLen+3:]\n", Replace: "\taesCiphertext := ciphertext[rsaLen+3:]\n\tif len(aesCiphertext) == 0 {\n\t\treturn []byte{}, nil\n\t}\n", Expect: "hybridDecrypt#success-through-Open", Describe: "a sealed value cut off behind the wrapped key unseals to the empty answer with any key"},
 	// C08
 	{ID: "printf-composite-as-pointer", Props: []string{"C08"}, Rule: "R-ADDRPRINT", File: "pkg/evaluator/value.go", Find: "\t\treturn unwrapBasicvalue(v.V)\n\tdefault:\n\t\treturn v.String()\n\t}\n", Replace: "\t\treturn unwrapBasicvalue(v.V)\n\t}\n\treturn val\n", Expect: "sprintf#fmt-dynamic-args", Describe: "printf \"%d\" [1 2] prints a heap address"},
 	{ID: "mapstring-go-order", Props: []string{"C08", "C12"}, Rule: "R-MAPRANGE", File: "pkg/evaluator/value.go", Find: "func (m *mapVal) String() string {\n\tpairs := make([]string, 0, len(m.Pairs))\n\tfor _, key := range *m.Order {\n\t\tpairs = append(pairs, key+\":\"+m.Pairs[key].String())", Replace: "func (m *mapVal) String() string {\n\tpairs := make([]string, 0, len(m.Pairs))\n\tfor key, v := range m.Pairs {\n\t\tpairs = append(pairs, key+\":\"+v.String())", Expect: "(*mapVal).String#maprange", Describe: "maps print in Go map order"},
